@@ -8,6 +8,9 @@ mod kinds;
 mod poll;
 mod req;
 mod pkce;
+mod urlt;
+#[macro_use]
+mod http;
 
 use std::io::{BufRead, Write};
 use std::panic::{catch_unwind, AssertUnwindSafe};
@@ -29,6 +32,10 @@ fn run_line(line: &str) -> String {
         "CSRF" => pkce::csrf(&ws[1..]),
         "RANDBULK" => pkce::randbulk(&ws[1..]),
         "SECEQ" => pkce::seceq(&ws[1..]),
+        "URLT" => urlt::urlt(&ws[1..]),
+        "URLP" => urlt::urlp(&ws[1..]),
+        "HTTP" => http::run(&ws[1..]),
+        "DECODE" => http::decode(&ws[1..]),
         _ => proto::BAD.into(),
     }
 }
